@@ -729,6 +729,19 @@ def index_map(e: ast.AST, env: Dict[str, IndexMap]) -> IndexMap:
             return index_map(e.args[0], env).rev_rows()
         if f == 'map' and len(e.args) == 2 and src(e.args[0]) in ('list', 'tuple'):
             return index_map(e.args[1], env).copy_rows()
+        helpers = env.get('__funcs__') or {}
+        if isinstance(e.func, ast.Name) and f in helpers and len(e.args) == 1 and \
+                not e.keywords and f not in env.get('__stack__', ()):
+            # a module-local helper on 2-D lists: its own index map, composed
+            a = index_map(e.args[0], env)
+            h = function_index_map(helpers[f], _stack=tuple(env.get('__stack__', ())) + (f,))
+            if getattr(h, 'mutates_operand', False) and not (a.fresh_outer and a.fresh_rows):
+                env.setdefault('__mut__', []).append(f)
+            dims = {'H': a.nr, 'W': a.nc}
+            hr, hc = h.r.subst(dims), h.c.subst(dims)
+            at = {'i': hr, 'j': hc}
+            return IndexMap(a.r.subst(at), a.c.subst(at), h.nr.subst(dims), h.nc.subst(dims),
+                            h.fresh_outer or a.fresh_outer, h.fresh_rows or a.fresh_rows)
     if isinstance(e, ast.ListComp) and len(e.generators) == 1 and not e.generators[0].ifs \
             and isinstance(e.generators[0].target, ast.Name):
         t = e.generators[0].target.id
@@ -745,17 +758,22 @@ def index_map(e: ast.AST, env: Dict[str, IndexMap]) -> IndexMap:
     raise AnalysisError(f'unrecognised 2-D list idiom: `{src(e)}`')
 
 
-def function_index_map(fn: Func) -> IndexMap:
+def function_index_map(fn: Func, _stack: tuple = ()) -> IndexMap:
     """index map of a rotation function written as straight-line list code: assignments of
-    2-D list expressions, in-place `x.reverse()`, `for row in x: row.reverse()`, return"""
+    2-D list expressions (calls of module-local helpers of the same kind composed), in-place
+    `x.reverse()`, `for row in x: row.reverse()`, return"""
     p = fn.node.args.args[0].arg
-    env: Dict[str, IndexMap] = {p: IndexMap.ident()}
+    env: Dict[str, Any] = {p: IndexMap.ident()}
+    env['__funcs__'] = {n: f for n, f in fn.module.functions.items()
+                        if len(f.node.args.args) == 1 and not f.node.args.vararg
+                        and not f.node.args.kwarg and not f.node.decorator_list}
+    env['__stack__'] = _stack or (fn.name,)
     aliased_param = {p}      # names that share storage with the operand
     mutates_operand = False
     for st in fn.body():
         if isinstance(st, ast.Return) and st.value is not None:
             m = index_map(st.value, env)
-            m.mutates_operand = mutates_operand  # type: ignore
+            m.mutates_operand = mutates_operand or bool(env.get('__mut__'))  # type: ignore
             return m
         if isinstance(st, ast.Assign) and len(st.targets) == 1 and \
                 isinstance(st.targets[0], ast.Name):
